@@ -912,4 +912,41 @@ theorem tie_newCacheStmts : newCacheStmts = [
   "cache.timingWheel = timingWheel",
   "return cache, nil"] := by decide
 
+/-- `NewSafeMap`: two fresh empty generations (SafeMap.init) -/
+theorem tie_newSafeMapStmts : newSafeMapStmts = [
+  "return &SafeMap{ dirtyOld: make(map[any]any), dirtyNew: make(map[any]any), }"] := by decide
+
+/-- `NewRollingWindow`: size < 1 panics; buckets from `newWindow`; `lastTime` = the clock at creation; options applied (RW.new) -/
+theorem tie_newRollingWindowStmts : newRollingWindowStmts = [
+  "if size < 1 {",
+  "panic(\"size must be greater than 0\")",
+  "}",
+  "w := &RollingWindow[T, B]{ size: size, win: newWindow[T, B](newBucket, size), interval: interval, lastTime: timex.Now(), }",
+  "range _, opt := opts {",
+  "opt(w)",
+  "}",
+  "return w"] := by decide
+
+/-- `newWindow`: `size` buckets, each from its own `newBucket()` call -/
+theorem tie_newWindowStmts : newWindowStmts = [
+  "buckets := make([]B, size)",
+  "for i := 0; i < size; i++ {",
+  "buckets[i] = newBucket()",
+  "}",
+  "return &window[T, B]{ buckets: buckets, size: size, }"] := by decide
+
+/-- `IgnoreCurrentBucket`: sets `ignoreCurrent` -/
+theorem tie_ignoreCurrentStmts : ignoreCurrentStmts = [
+  "return func(w *RollingWindow[T, B]) { w.ignoreCurrent = true }"] := by decide
+
+/-- `Bucket.Add`: sum and count -/
+theorem tie_bucketAddStmts : bucketAddStmts = [
+  "b.Sum += v",
+  "b.Count++"] := by decide
+
+/-- `Bucket.Reset`: both back to zero -/
+theorem tie_bucketResetStmts : bucketResetStmts = [
+  "b.Sum = 0",
+  "b.Count = 0"] := by decide
+
 end GoZero.C16.Tie
